@@ -956,9 +956,9 @@ c_rule_ldreslinb (OrcCompiler *p, void *user, OrcInstruction *insn)
   ORC_ASM_CODE(p,"    {\n");
   if (p->target_flags & ORC_TARGET_C_OPCODE &&
       !(insn->flags & ORC_INSN_FLAG_ADDED)) {
-    ORC_ASM_CODE(p,"    int tmp = %s + (offset + i) * %s;\n", src1, src2);
+    ORC_ASM_CODE(p,"    orc_int64 tmp = %s + (orc_int64)(offset + i) * %s;\n", src1, src2);
   } else {
-    ORC_ASM_CODE(p,"    int tmp = %s + i * %s;\n", src1, src2);
+    ORC_ASM_CODE(p,"    orc_int64 tmp = %s + (orc_int64)i * %s;\n", src1, src2);
   }
   ORC_ASM_CODE(p,"    var%d = ((orc_uint8)ptr%d[tmp>>16] * (256-((tmp>>8)&0xff)) + (orc_uint8)ptr%d[(tmp>>16)+1] * ((tmp>>8)&0xff))>>8;\n",
       insn->dest_args[0], insn->src_args[0], insn->src_args[0]);
@@ -979,9 +979,9 @@ c_rule_ldreslinl (OrcCompiler *p, void *user, OrcInstruction *insn)
   ORC_ASM_CODE(p,"    {\n");
   if (p->target_flags & ORC_TARGET_C_OPCODE &&
       !(insn->flags & ORC_INSN_FLAG_ADDED)) {
-    ORC_ASM_CODE(p,"    int tmp = %s + (offset + i) * %s;\n", src1, src2);
+    ORC_ASM_CODE(p,"    orc_int64 tmp = %s + (orc_int64)(offset + i) * %s;\n", src1, src2);
   } else {
-    ORC_ASM_CODE(p,"    int tmp = %s + i * %s;\n", src1, src2);
+    ORC_ASM_CODE(p,"    orc_int64 tmp = %s + (orc_int64)i * %s;\n", src1, src2);
   }
   ORC_ASM_CODE(p,"    orc_union32 a = ptr%d[tmp>>16];\n", insn->src_args[0]);
   ORC_ASM_CODE(p,"    orc_union32 b = ptr%d[(tmp>>16)+1];\n", insn->src_args[0]);
